@@ -453,6 +453,7 @@ def import_interface(repo, vc_path, opts, cache):
                     if a[0] in t: t = t.replace(a[0], a[1])
                 out.append((('import', u.name, no), t))
         elif kind == 'import':
+            if 'unit:' + sec['unit'] in opts['skip']: continue   # the importer gets that unit through another import
             sub, _ = import_interface(repo, os.path.join(os.path.dirname(vc_path), sec['unit'] + '.vc'), {'unit': sec['unit'], 'lits': sec['lits'] + opts['lits'], 'skip': sec['skip'] + opts['skip']}, cache)
             out += [((o[0], o[1], o[2]) if o[0] == 'import' else ('import', u.name, 0), t) for o, t in sub]
         else:
